@@ -809,7 +809,8 @@ func siteOracle(o *core.Outcome, sc *script, obs siteObs) {
 			} else {
 				a = a.Unmap()
 			}
-			if hostBitsNonZero(a, ones) && strings.Contains(filt, `"remote_ip":"`+jsonInner(hostText)+`"`) {
+			shown := `"remote_ip":"` + jsonInner(hostText)
+			if hostBitsNonZero(a, ones) && (strings.Contains(filt, shown+`"`) || strings.Contains(filt, shown+`%`)) {
 				host := sc.remote
 				if h, _, err := net.SplitHostPort(sc.remote); err == nil {
 					host = h
